@@ -8,18 +8,25 @@ import (
 	"bytes"
 	"context"
 	"fmt"
+	"net"
 	"strconv"
 	"strings"
+	"sync"
 	"testing"
 	"testing/synctest"
+	"time"
 
 	"github.com/plgd-dev/go-coap/v3/message"
 	"github.com/plgd-dev/go-coap/v3/message/codes"
 	"github.com/plgd-dev/go-coap/v3/message/noresponse"
 	"github.com/plgd-dev/go-coap/v3/message/pool"
+	"github.com/plgd-dev/go-coap/v3/mux"
+	coapNet "github.com/plgd-dev/go-coap/v3/net"
 	"github.com/plgd-dev/go-coap/v3/net/responsewriter"
+	"github.com/plgd-dev/go-coap/v3/options"
 	tcpclient "github.com/plgd-dev/go-coap/v3/tcp/client"
 	tcpcoder "github.com/plgd-dev/go-coap/v3/tcp/coder"
+	"github.com/plgd-dev/go-coap/v3/udp"
 	udpclient "github.com/plgd-dev/go-coap/v3/udp/client"
 	udpcoder "github.com/plgd-dev/go-coap/v3/udp/coder"
 	"verifharness/internal/lp"
@@ -35,6 +42,34 @@ var reqMID int32 = 0x1234
 // handlerMutates: option numbers the handler inserts into ITS request object before calling SetResponse (a handler may
 // normalise or annotate the request it was given; that must not change what the requester asked to suppress)
 var handlerMutates []message.OptionID
+
+// handlerMode: "" = the connection's handler calls ResponseWriter.SetResponse directly; "mux" = the handler is a mux.Router
+// installed through options.WithMux (the writer the application sees is mux's wrapper); "mw" = the same with a middleware
+// that stamps an option on the response message before the handler runs
+var handlerMode string
+
+func muxHandler(code codes.Code, set *string) mux.Handler {
+	r := mux.NewRouter()
+	if handlerMode == "mw" {
+		r.Use(func(next mux.Handler) mux.Handler {
+			return mux.HandlerFunc(func(w mux.ResponseWriter, req *mux.Message) {
+				w.Message().SetOptionBytes(message.MaxAge, []byte{0x3c})
+				next.ServeCOAP(w, req)
+			})
+		})
+	}
+	_ = r.Handle("/x", mux.HandlerFunc(func(w mux.ResponseWriter, req *mux.Message) {
+		for _, id := range handlerMutates {
+			req.SetOptionBytes(id, []byte{0x68, byte(id)})
+		}
+		if err := w.SetResponse(code, message.TextPlain, nil); err != nil {
+			*set = "refused"
+		} else {
+			*set = "accepted"
+		}
+	}))
+	return r
+}
 
 func typeName(t message.Type) string {
 	switch t {
@@ -97,6 +132,10 @@ func srvUDPOnce(t *testing.T, con bool, v int64, code codes.Code, coincidence *b
 	synctest.Test(t, func(t *testing.T) {
 		set := "nocall"
 		cc, s := mem.NewUDPConn(mem.UDPOpts{Mutate: func(cfg *udpclient.Config) {
+			if handlerMode != "" {
+				options.WithMux(muxHandler(code, &set)).UDPClientApply(cfg)
+				return
+			}
 			cfg.Handler = func(w *responsewriter.ResponseWriter[*udpclient.Conn], r *pool.Message) {
 				for _, id := range handlerMutates {
 					r.SetOptionBytes(id, []byte{0x68, byte(id)})
@@ -142,6 +181,10 @@ func srvTCP(t *testing.T, v int64, code codes.Code, extra ...message.OptionID) (
 	synctest.Test(t, func(t *testing.T) {
 		set := "nocall"
 		cc, peer, err := mem.NewTCPConn(mem.TCPOpts{Mutate: func(cfg *tcpclient.Config) {
+			if handlerMode != "" {
+				options.WithMux(muxHandler(code, &set)).TCPClientApply(cfg)
+				return
+			}
 			cfg.Handler = func(w *responsewriter.ResponseWriter[*tcpclient.Conn], r *pool.Message) {
 				for _, id := range handlerMutates {
 					r.SetOptionBytes(id, []byte{0x68, byte(id)})
@@ -180,6 +223,102 @@ func srvTCP(t *testing.T, v int64, code codes.Code, extra ...message.OptionID) (
 		synctest.Wait()
 	})
 	return line
+}
+
+// srvReal: the request is handled by a connection that a real udp.Server created for the peer (its handler is the server's
+// wrapper around the configured one); multi: the datagram's control message says it was addressed to a multicast group.
+func srvReal(multi, con bool, v int64, code codes.Code) (line string) {
+	defer func() {
+		if r := recover(); r != nil {
+			line = fmt.Sprintf("panic %v", r)
+		}
+	}()
+	l, err := coapNet.NewListenUDP("udp4", "127.0.0.1:0")
+	if err != nil {
+		return "conn-error listen"
+	}
+	defer l.Close()
+	set := "nocall"
+	var mu sync.Mutex
+	ccCh := make(chan *udpclient.Conn, 1)
+	s := udp.NewServer(options.WithErrors(func(error) {}), options.WithMessagePool(pool.New(64, 2048)),
+		options.WithOnNewConn(func(cc *udpclient.Conn) {
+			select {
+			case ccCh <- cc:
+			default:
+			}
+		}),
+		options.WithHandlerFunc(func(w *responsewriter.ResponseWriter[*udpclient.Conn], r *pool.Message) {
+			if p, _ := r.Path(); p != "/x" {
+				return // the warm-up datagram: no response
+			}
+			mu.Lock()
+			defer mu.Unlock()
+			if err := w.SetResponse(code, message.TextPlain, nil); err != nil {
+				set = "refused"
+			} else {
+				set = "accepted"
+			}
+		}))
+	served := make(chan struct{})
+	go func() { _ = s.Serve(l); close(served) }()
+	defer func() { s.Stop(); <-served }()
+	peer, err := net.DialUDP("udp4", nil, l.LocalAddr().(*net.UDPAddr))
+	if err != nil {
+		return "conn-error dial"
+	}
+	defer peer.Close()
+	warm := pool.NewMessage(context.Background())
+	warm.SetCode(codes.GET)
+	warm.SetToken(message.Token{0x77})
+	_ = warm.SetPath("/warm")
+	warm.SetType(message.NonConfirmable)
+	warm.SetMessageID(0x0101)
+	wb, _ := warm.MarshalWithEncoder(udpcoder.DefaultCoder)
+	if _, err := peer.Write(wb); err != nil {
+		return "conn-error write"
+	}
+	var cc *udpclient.Conn
+	select {
+	case cc = <-ccCh:
+	case <-time.After(time.Second):
+		return "conn-error no-connection"
+	}
+	time.Sleep(20 * time.Millisecond)
+	var cm *coapNet.ControlMessage
+	if multi {
+		cm = &coapNet.ControlMessage{Dst: net.IPv4(224, 0, 1, 187)}
+	}
+	if err := cc.Process(cm, buildReq(true, con, v)); err != nil {
+		set = "process-error"
+	}
+	var datagrams [][]byte
+	buf := make([]byte, 2048)
+	for {
+		_ = peer.SetReadDeadline(time.Now().Add(120 * time.Millisecond))
+		n, err := peer.Read(buf)
+		if err != nil {
+			break
+		}
+		datagrams = append(datagrams, append([]byte(nil), buf[:n]...))
+	}
+	mu.Lock()
+	defer mu.Unlock()
+	var b bytes.Buffer
+	fmt.Fprintf(&b, "set %s sent %d", set, len(datagrams))
+	for _, d := range datagrams {
+		m := pool.NewMessage(context.Background())
+		if _, err := m.UnmarshalWithDecoder(udpcoder.DefaultCoder, d); err != nil {
+			fmt.Fprintf(&b, " undecodable")
+			continue
+		}
+		mid := "own"
+		if m.MessageID() == reqMID {
+			mid = "req"
+		}
+		fmt.Fprintf(&b, " %s %d %s %s", typeName(m.Type()), m.Code(), mid, lp.Hex(m.Token()))
+	}
+	return b.String()
 }
 
 func isLine(code uint64, v uint64) bool {
@@ -249,6 +388,34 @@ func TestC20(t *testing.T) {
 			} else {
 				fmt.Fprintf(w, "accepted %v %d\n", resp.IsModified(), resp.Code())
 			}
+		case len(f) == 5 && f[0] == "srvreal":
+			v := int64(-1)
+			if f[3] != "-" {
+				v, _ = strconv.ParseInt(f[3], 10, 64)
+			}
+			c, _ := strconv.ParseUint(f[4], 10, 16)
+			fmt.Fprintln(w, srvReal(f[1] == "multi", f[2] == "con", v, codes.Code(c)))
+		case len(f) == 5 && (f[0] == "srvmux" || f[0] == "srvmw"):
+			handlerMode = strings.TrimPrefix(f[0], "srv")
+			handlerMutates = nil
+			v := int64(-1)
+			if f[3] != "-" {
+				v, _ = strconv.ParseInt(f[3], 10, 64)
+			}
+			c, _ := strconv.ParseUint(f[4], 10, 16)
+			var o string
+			if f[1] == "udp" {
+				o = srvUDP(t, f[2] == "con", v, codes.Code(c))
+			} else {
+				o = srvTCP(t, v, codes.Code(c))
+			}
+			handlerMode = ""
+			if f[0] == "srvmw" {
+				// the middleware touched the response message, so what goes on the wire is not the bare outcome any more:
+				// only the handler's SetResponse outcome is reported
+				o = strings.Fields(o + " - -")[1]
+			}
+			fmt.Fprintln(w, o)
 		case (len(f) == 5 || len(f) == 6) && f[0] == "srv":
 			var extra []message.OptionID
 			handlerMutates = nil
